@@ -612,9 +612,12 @@ def gen_func(rng, names: Names, refs, tvs, *, private=False, deco="plain", docs=
         f.body = "pass"       # neither annotation nor inferable return
         f.inferred = []
     else:
+        if doc_types and rng.random() < 0.45:
+            f.ret = Ann("tuple", [Ann(rng.choice(BASE_ANN)) for _ in range(rng.randrange(2, 4))])
         # a type variable in the result only if a parameter mentions it (mypy rejects the other case)
         has_tv = any(a.kind == "typevar" for p in f.params if p.ann for a in p.ann.walk())
-        f.ret = gen_ann(rng, 2, refs, tvs=tvs if has_tv else None)
+        if not (doc_types and f.ret is not None and f.ret.kind == "tuple"):
+            f.ret = gen_ann(rng, 2, refs, tvs=tvs if has_tv else None)
     if docs and rng.random() < 0.6:
         f.doc = f"Doc of {f.name}. Line one."
         if rng.random() < 0.4:
@@ -632,7 +635,14 @@ def gen_func(rng, names: Names, refs, tvs, *, private=False, deco="plain", docs=
                     p.doc_type = p.ann.kind
                 else:
                     p.doc_type = rng.choice(BASE_ANN)
-        if deco != "prop" and rng.random() < 0.4 and (f.ret is not None and f.ret.kind != "tuple" or (f.ret is None and not f.ret_none and f.inferred is None)):
+        if deco != "prop" and f.ret is not None and f.ret.kind == "tuple" and len(f.ret.args) >= 2 and rng.random() < 0.7:
+            # several named results (numpydoc lists them; the other styles only use the first): some entries carry a type that
+            # differs from or equals the hint, some only prose
+            for k, a in enumerate(f.ret.args):
+                r = rng.random()
+                t = (a.kind if a.kind in BASE_ANN and r < 0.2 else rng.choice(BASE_ANN)) if r < 0.55 else "a short piece of text"
+                f.result_docs.append((f"res_{k}_{f.name}", t, f"Result {k} of {f.name}."))
+        elif deco != "prop" and rng.random() < 0.4 and (f.ret is not None and f.ret.kind != "tuple" or (f.ret is None and not f.ret_none and f.inferred is None)):
             t = f.ret.kind if (f.ret is not None and f.ret.kind in BASE_ANN and rng.random() < 0.5) else rng.choice(BASE_ANN)
             f.result_docs = [("", t, f"Result of {f.name}.")]
     return f
@@ -719,6 +729,11 @@ def gen_package(rng: random.Random, idx: int, *, style="plaintext", nmods=3, ree
             m.classes.append(c)
             if not c.name.startswith("_"):
                 refs_here.append(Ann("ref", name=c.name, module=m.dotted))
+        if generics and shared_tv and rng.random() < 0.5:
+            # a generic class over the package-wide type variable name
+            gc0 = Cls(names.fresh("cls"), bases=[f"Generic[{tv}]"], tparams=[tv],
+                      methods=[Func(names.fresh("func"), [Param(names.fresh("param"), "pos", Ann("typevar", name=tv))], ret=Ann("int"))])
+            m.classes.append(gc0)
         if generics and rng.random() < 0.5:
             gtv = f"G{names.num()}{tag}"
             decl = rng.choice([f'{gtv} = TypeVar("{gtv}")', f'{gtv} = TypeVar("{gtv}", bound=int)',
@@ -745,12 +760,32 @@ def gen_package(rng: random.Random, idx: int, *, style="plaintext", nmods=3, ree
                 host.methods.append(Func(names.fresh("func"), [Param(names.fresh("param"), "pos", Ann("typevar", name=tv))],
                                          ret=Ann("typevar", name=tv)))
         # subclassing inside the module: public and private bases
-        if private_bases and len(m.classes) >= 2 and rng.random() < 0.7:
-            base = next((c for c in m.classes if not c.tparams), m.classes[0])
+        if private_bases and mi == 0 and not any(c.name.startswith("_") and not c.tparams for c in m.classes):
+            host = gen_class(rng, names, refs_here if cross_refs else [], [tv], private=False, docs=docs, depth=0)
+            forced = gen_class(rng, names, refs_here if cross_refs else [], [tv], private=True, docs=docs, depth=0)
+            if not any(not f.name.startswith("_") for f in forced.methods):
+                forced.methods.append(Func(names.fresh("func"), [], ret=Ann("int")))
+            sub1 = gen_class(rng, names, refs_here if cross_refs else [], [tv], private=False, docs=docs, depth=0)
+            sub1.bases = [forced.name]
+            sub1.base_refs = [(forced.name, m.dotted, True)]
+            m.classes[0:0] = [host, forced, sub1]
+            if not host.name.startswith("_"):
+                refs_here.append(Ann("ref", name=host.name, module=m.dotted))
+                refs_here.append(Ann("ref", name=sub1.name, module=m.dotted))
+        if private_bases and len(m.classes) >= 2 and (mi == 0 or rng.random() < 0.7):
+            base = next((c for c in m.classes if not c.tparams and (mi != 0 or c.name.startswith("_"))), m.classes[0])
             for sub in [c for c in m.classes if c is not base and not c.tparams and m.classes.index(c) > m.classes.index(base)]:
                 if rng.random() < 0.5 and not sub.bases:
                     sub.bases = [base.name]
                     sub.base_refs = [(base.name, m.dotted, base.name.startswith("_"))]
+        # a nested class that reuses the name of a module-level private base, declared in an earlier class
+        privs = [c for c in m.classes if c.name.startswith("_") and any(b[0] == c.name for s_ in m.classes for b in s_.base_refs)]
+        if privs and rng.random() < 0.6:
+            pb = privs[0]
+            hosts = [c for c in m.classes if m.classes.index(c) < m.classes.index(pb) and not c.name.startswith("_") and not c.tparams]
+            if hosts:
+                twin = Cls(pb.name, methods=[Func(names.fresh("func"), [], ret=Ann("int"))])
+                hosts[0].inner.append(twin)
         for _ in range(rng.randrange(0, 2)):
             m.enums.append(Enum_(names.fresh("enum"), [names.fresh("member") for _ in range(rng.randrange(0, 4))],
                                  doc="Enum doc." if docs and rng.random() < 0.5 else ""))
